@@ -147,7 +147,8 @@ UnknownTag(ps) == [r \in 1..Len(ps) |-> IF ps[r][2] = "tag" THEN <<S2B("foo"), "
                                        ELSE IF ps[r][2] \in {"W", "O"} THEN <<<<32>>, "">> ELSE ps[r]]
 InjectionCases ==
   { [c |-> c, q |-> q, ik |-> ik, pre |-> pre] :
-      c \in 1..NS, q \in 1..20, ik \in {"illegal", "surplus", "illegalmb"}, pre \in 1..2 }
+      c \in (1..NS) \cup {NS + (o - 1) * NS + 1 : o \in 1..NOC},      \* every simple construct, and every body construct around the first
+      q \in 1..45, ik \in {"illegal", "surplus", "illegalmb"}, pre \in 1..2 }
 InjOK(x) == LET ps == Con(x.c) IN x.q \in SlotsOf(ps) /\ (x.ik \in {"illegal", "illegalmb"} \/ BeforeClose(ps, x.q))
                                   /\ ps[1][1] \in {<<123, 123>>, <<123, 37>>}
                                   (* a malformed endverbatim tag is body text of the verbatim section, not a tag *)
